@@ -628,7 +628,8 @@ type gstate struct {
 	prefixes [][]byte // per layer (prefix layers)
 	clean    []bool   // cache layer may hold clean entries
 	hasCp    []bool
-	open     []int // ids of kept iterators
+	known    [][]string // per layer: key tokens used by set ops on that layer
+	open     []int      // ids of kept iterators
 	nextID   int
 	maxDepth int
 }
@@ -645,6 +646,38 @@ func (g *gstate) randKey(n int) []byte {
 
 // absolute prefix (in base coordinates) of layer i, and the chain of prefixes above a layer.
 func (g *gstate) key(layer int) string {
+	k := g.key0(layer)
+	return k
+}
+
+// usedKey: mostly a key that was set on this layer before (so reads and deletes hit).
+func (g *gstate) usedKey(layer int) string {
+	if ks := g.known[layer]; len(ks) > 0 && g.r.Chance(45) {
+		return kit.Pick(g.r, ks)
+	}
+	return g.key(layer)
+}
+
+func (g *gstate) cacheLayer() int {
+	j := g.pickLayer()
+	if g.kinds[j] != "cache" && g.r.Chance(90) {
+		var cs []int
+		for i, k := range g.kinds {
+			if k == "cache" {
+				cs = append(cs, i)
+			}
+		}
+		if len(cs) > 0 {
+			if g.r.Chance(50) {
+				return cs[len(cs)-1]
+			}
+			return kit.Pick(g.r, cs)
+		}
+	}
+	return j
+}
+
+func (g *gstate) key0(layer int) string {
 	r := g.r
 	switch {
 	case r.Chance(2):
@@ -761,6 +794,7 @@ func (g *gstate) push() {
 	}
 	g.clean = append(g.clean, false)
 	g.hasCp = append(g.hasCp, false)
+	g.known = append(g.known, nil)
 }
 
 // one op; disciplined=false lets view-changing ops hit unsafe layers.
@@ -777,17 +811,22 @@ func (g *gstate) op(disciplined bool) {
 	switch {
 	case x < 24:
 		j := mut()
-		w.Op("set L%d %s %s", j, g.key(j), g.val())
+		k := g.key(j)
+		if r.Chance(20) {
+			k = g.usedKey(j)
+		}
+		w.Op("set L%d %s %s", j, k, g.val())
+		g.known[j] = append(g.known[j], k)
 	case x < 36:
 		j := mut()
-		w.Op("del L%d %s", j, g.key(j))
+		w.Op("del L%d %s", j, g.usedKey(j))
 	case x < 48:
 		j := g.pickLayer()
-		w.Op("get L%d %s", j, g.key(j))
+		w.Op("get L%d %s", j, g.usedKey(j))
 		g.noteRead(j)
 	case x < 52:
 		j := g.pickLayer()
-		w.Op("has L%d %s", j, g.key(j))
+		w.Op("has L%d %s", j, g.usedKey(j))
 		g.noteRead(j)
 	case x < 67:
 		j := g.pickLayer()
@@ -799,28 +838,20 @@ func (g *gstate) op(disciplined bool) {
 	case x < 75:
 		w.Op("dump")
 	case x < 81:
-		j := g.pickLayer()
-		if g.kinds[j] != "cache" && r.Chance(90) {
-			for i := g.top(); i >= 0; i-- {
-				if g.kinds[i] == "cache" {
-					j = i
-					break
-				}
-			}
-		}
+		j := g.cacheLayer()
 		w.Op("write L%d", j)
 		if g.kinds[j] == "cache" {
 			g.clean[j] = false
 			g.hasCp[j] = false
 		}
 	case x < 85:
-		j := g.pickLayer()
+		j := g.cacheLayer()
 		w.Op("cp L%d", j)
 		if g.kinds[j] == "cache" {
 			g.hasCp[j] = true
 		}
 	case x < 88:
-		j := g.pickLayer()
+		j := g.cacheLayer()
 		if disciplined && !g.safe(j) {
 			j = g.top()
 		}
@@ -835,7 +866,7 @@ func (g *gstate) op(disciplined bool) {
 			g.hasCp[j] = false
 		}
 	case x < 89:
-		w.Op("hascp L%d", g.pickLayer())
+		w.Op("hascp L%d", g.cacheLayer())
 	case x < 93:
 		if len(g.kinds) < g.maxDepth {
 			g.push()
@@ -864,10 +895,12 @@ func (g *gstate) op(disciplined bool) {
 
 func script(w *kit.Out, r *kit.Rand, id string, nops, maxDepth int, disciplined bool) {
 	w.Case(id)
-	g := &gstate{r: r, w: w, kinds: []string{"base"}, prefixes: [][]byte{nil}, clean: []bool{false}, hasCp: []bool{false}, maxDepth: maxDepth}
+	g := &gstate{r: r, w: w, kinds: []string{"base"}, prefixes: [][]byte{nil}, clean: []bool{false}, hasCp: []bool{false}, known: [][]string{nil}, maxDepth: maxDepth}
 	// populate the base a little, then build part of the stack early
 	for i := r.Intn(5); i > 0; i-- {
-		w.Op("set L0 %s %s", g.key(0), g.val())
+		k := g.key(0)
+		w.Op("set L0 %s %s", k, g.val())
+		g.known[0] = append(g.known[0], k)
 	}
 	for i := r.Intn(3); i > 0 && len(g.kinds) < maxDepth; i-- {
 		g.push()
